@@ -4,17 +4,19 @@ from __future__ import annotations
 import contextlib
 import io
 import math
+import re as _re
 
 import numpy as np
 
 from vf import core
 from vf.core import CorrResult, Disagreement, Failure, coq_float, coq_z, coq_list, coq_bool
 from translator import frames as tr
+from translator import simreport as tr2
 
 ID = "C06"
 PROPS = "props/C06.v"
-GENERATED = [tr.OUT]
-CASE_DEPS = ["model/Frames.vo", "model/Stacked.vo", "lib/StackedCase.vo"]
+GENERATED = [tr.OUT, tr2.OUT]
+CASE_DEPS = ["model/Frames.vo", "model/Stacked.vo", "lib/StackedCase.vo", "model/SimReport.vo", "lib/SimReportCase.vo"]
 ALLOWED_AXIOMS = {
     "sig_forall_dec", "sig_not_dec", "functional_extensionality_dep",
     "ClassicalDedekindReals.sig_forall_dec", "ClassicalDedekindReals.sig_not_dec",
@@ -23,6 +25,9 @@ ALLOWED_AXIOMS = {
 }
 TRUSTED = [
     "translator/frames.py (Frame.resolve_columns of frames.py -> gen/FramesGen.v)",
+    "translator/simreport.py (statement shapes of Inlay.simulate's loops and failure report, of the four streams of "
+    "wrongdoings.py, of the fallbacks/overwrites blocks of _slatable_for_simulate_or_kalman_filter and of "
+    "Variant.from_databox_variant -> gen/SimReportGen.v)",
     "the damped Newton solver (neqs) is an oracle: the frame data it leaves behind and its exit status are recorded "
     "by wrapping stacked_time.simulators.simulate_frame from the harness; the model takes them as an argument",
     "algorithmic differentiation (C02), the first-order solution matrices (C01) and numpy/scipy sparse algebra are "
@@ -38,6 +43,11 @@ ASSUMPTIONS = [
     "own continuation: C01) and 'the stacked Jacobian is non-singular' as injectivity of the linear part",
     "models with a flat (stationary) steady state; parameter variants are simulated and checked one by one, each on its "
     "own data (the frame loop of a variant is the modelled unit)",
+    "'simulate reports success' is read as: with when_fails in {critical, error, warning} simulate() returns normally and "
+    "a frame is not listed in an IrisPieWarning 'Simulation failed to complete'; with when_fails='silent' the exit "
+    "statuses of return_info are the report.  The per-frame exit status (Newton) is an oracle of the report model",
+    "the equations in force are the model's (its own parameter values) unless parameters_from_data=True is passed; "
+    "names of parameters, shocks and stds are disjoint (one group per name) in the row theorem",
 ]
 
 MANIFEST = {
@@ -53,7 +63,14 @@ MANIFEST = {
                   "leads beyond the last column read through the terminal operator in force; writing a guess and writing a "
                   "frame back leave every cell outside the unknown cells / outside the frame slice (and every exogenized "
                   "cell) unchanged; for affine equations and an affine terminal operator the first-order path is a zero of "
-                  "the stacked system and the only one when the linear part is injective. The Newton iteration, AD "
+                  "the stacked system and the only one when the linear part is injective. For any number of variants and "
+                  "frames and any per-frame exit statuses, simulate() with when_fails in {critical, error, warning} returns "
+                  "normally without a warning iff every frame of every variant reports success (statement shapes of the "
+                  "loops of Inlay.simulate and of the streams of wrongdoings.py regenerated from the source); the dataslate "
+                  "row of a parameter / shock / std name is the model's value whatever the databox holds when the group's "
+                  "*_from_data flag is off, and the databox's values with the model's value in the gaps when it is on "
+                  "(blocks of _slatable_for_simulate_or_kalman_filter, flag wiring of simulate(), order of fallbacks and "
+                  "overwrites regenerated from the source). The Newton iteration, AD "
                   "Jacobian values and first-order matrices are contracts.",
     "level_note": "partial: Newton convergence, Jacobian values (C02) and the first-order solution (C01) are contracts; the "
                   "model is tied to the code by exact correspondence of frames, unknown cells, index maps, pruning and "
@@ -64,6 +81,7 @@ MANIFEST = {
 
 def translate(ctx):
     tr.run()
+    tr2.run()
 
 
 # =====================================================================================
@@ -397,8 +415,47 @@ def gen_case(rng, spec, tier_long=False) -> dict:
     # non-default output options of simulate, and input series with fewer variants than the model (broadcast)
     opts = {"remove_terminal": rng.random() < 0.3, "remove_initial": rng.random() < 0.8,
             "prepend_input": rng.random() < 0.8, "collapse_equal_variants": nv > 1 and rng.random() < 0.4}
+    # --- how a failure is reported, and a solver that is made to fail in some frames (tiny iteration limit together
+    #     with a large shock early in the span: strong nonlinearity at the start, near-steady dynamics at the end)
+    when_fails = rng.choice(["silent", "silent", "critical", "critical", "error", "error", "warning", "warning"])
+    max_iter = None
+    if rng.random() < (0.45 if not spec["linear"] else 0.1):
+        max_iter = rng.choice([1, 1, 1, 2, 2, 3, 4])
+        if not plan and rng.random() < 0.85:
+            for values in vvalues:
+                sh = rng.choice(shocks)
+                values.setdefault(sh, {})[0] = round(rng.uniform(0.4, 1.2) * rng.choice([-1, 1]), 3)
+                if T > 2 and rng.random() < 0.6:          # a small late shock: one more (easy) frame for stacked_time
+                    values.setdefault(rng.choice(shocks), {})[rng.randrange(T // 2 + 1, T)] = \
+                        round(rng.uniform(1e-4, 1e-3), 5)
+    # --- the input databox carries entries named like parameters whose values are NOT the model's (a databox made
+    #     for another parametrisation), and the *_from_data flags of simulate
+    stale = None
+    if rng.random() < 0.4:
+        stale = {"form": rng.choice(["value", "value", "series"]), "rho": []}
+        for v in range(nv):
+            row = []
+            for i in range(n):
+                r0 = spec["rho_v"][v][i] if spec.get("rho_v") else spec["eqs"][i]["rho"]
+                row.append(None if rng.random() < 0.3 else
+                           round(min(0.85, max(0.02, r0 + rng.choice([-1, 1]) * rng.uniform(0.08, 0.3))), 3))
+            stale["rho"].append(row)
+        if nv > 1:      # a list-valued entry needs a value in every variant
+            for i in range(n):
+                if any(stale["rho"][v][i] is None for v in range(nv)) and any(stale["rho"][v][i] is not None for v in range(nv)):
+                    for v in range(nv):
+                        if stale["rho"][v][i] is None:
+                            stale["rho"][v][i] = spec["rho_v"][v][i]
+    flags = {}
+    if rng.random() < 0.3:
+        flags["stds_from_data"] = rng.random() < 0.5
+    if rng.random() < 0.2:
+        flags["parameters_from_data"] = False
+    elif stale is not None and rng.random() < 0.2:
+        flags["parameters_from_data"] = True
     return {"spec": spec, "start": 8000 + rng.randint(0, 40), "nper": T, "method": method, "terminal": terminal,
-            "initial_guess": ig, "values": vvalues, "plan": plan, "step_tol": step_tol, "opts": opts}
+            "initial_guess": ig, "values": vvalues, "plan": plan, "step_tol": step_tol, "opts": opts,
+            "when_fails": when_fails, "max_iter": max_iter, "stale": stale, "flags": flags}
 
 
 def _qq(serial):
@@ -435,6 +492,18 @@ def make_input(case, m):
                 val = base * (1 + val[1]) if (spec["log"][i] or abs(base) > 0.3) else base + val[1]
             row[v] = float("nan") if val == "nan" else float(val)
         db[name][per] = row if nv > 1 else row[0]
+    stale = case.get("stale")
+    if stale:
+        full = ir.Span(_qq(s0 + lo - 1), _qq(s0 + T - 1 + hi + 1))
+        for i in range(spec["n"]):
+            vals = [stale["rho"][v][i] for v in range(nv)]
+            if all(x is None for x in vals):
+                continue
+            vals = [float(x) for x in vals]
+            if stale.get("form") == "series":
+                db[f"rho{i}"] = ir.Series(start=full.start, values=np.tile(np.array([vals], dtype=float), (len(full), 1)))
+            else:
+                db[f"rho{i}"] = vals if nv > 1 else vals[0]
     if nv > 1 and case.get("opts", {}).get("collapse_equal_variants"):
         # a series whose variants are all equal is passed with a single variant (the last variant is repeated)
         for name in list(db.keys()):
@@ -495,9 +564,25 @@ def run_sim(case, m=None) -> dict:
     from irispie.simultaneous import _simulate as sim_mod
     orig_header = sim_mod._create_simulation_header
 
+    rec["headers"] = {}          # header text -> (variant, index of the frame among the variant's frames)
+    rec["statuses"] = {}         # variant -> [is_success of every frame that was run]
+    rec["nframes"] = {}          # variant -> number of frames created
+
     def create_simulation_header(vid, frame):
         state["vid"] = int(vid)          # the variant the frame loop is working on
-        return orig_header(vid, frame)
+        h = orig_header(vid, frame)
+        rec["headers"][h] = (int(vid), len(rec["statuses"].get(int(vid), [])))
+        return h
+
+    def wrap_create_frames(mod):
+        orig = mod.create_frames
+
+        def create_frames(model_v, dataslate_v, plan_, **kw):
+            frames = orig(model_v, dataslate_v, plan_, **kw)
+            frames = tuple(frames)
+            rec["nframes"][len(rec["nframes"])] = len(frames)
+            return frames
+        P.set(mod, "create_frames", create_frames)
 
     def wrap_simulate_frame(mod):
         orig = mod.simulate_frame
@@ -517,9 +602,15 @@ def run_sim(case, m=None) -> dict:
             cur["input_data_array"] = kw["input_data_array"].copy()
             cur["qid_to_logly"] = dict(model_v.create_qid_to_logly())
             cur["max_lead"] = int(model_v.max_lead)
-            status = orig(model_v, frame_ds, **kw)
+            state["depth"] = state.get("depth", 0) + 1
+            try:
+                status = orig(model_v, frame_ds, **kw)
+            finally:
+                state["depth"] -= 1
             cur["after"] = frame_ds.get_data_variant(0).copy()
             cur["status"] = status
+            if state["depth"] == 0:        # (period_by_period.simulate_frame delegates to stacked_time.simulate_frame)
+                rec["statuses"].setdefault(state["vid"], []).append(bool(status.is_success))
             return status
         P.set(mod, "simulate_frame", simulate_frame)
 
@@ -619,10 +710,28 @@ def run_sim(case, m=None) -> dict:
         rec["variants"].setdefault(state["vid"], []).append(r)
         cur.clear()
 
+    DS = sim_mod.Dataslate
+    ds_orig = DS.__dict__["from_databox_for_slatable"]
+
+    def from_databox_for_slatable(klass, slatable, databox, base_span, *a, **kw2):
+        ds = ds_orig.__func__(klass, slatable, databox, base_span, *a, **kw2)
+        try:
+            rec["slate"] = {"names": list(ds.names), "periods": [int(p.serial) for p in ds.periods],
+                            "data": [ds.get_data_variant(v).copy() for v in range(ds.num_variants)]}
+        except Exception as e:  # noqa
+            rec["slate"] = {"error": f"{type(e).__name__}: {e}"}
+        return ds
+
+    import warnings as _w
+    wf = case.get("when_fails") or "silent"
     try:
+        DS.from_databox_for_slatable = classmethod(from_databox_for_slatable)
         P.set(sim_mod, "_create_simulation_header", create_simulation_header)
         wrap_simulate_frame(st_sim)
         wrap_simulate_frame(pbp_sim)
+        wrap_create_frames(st_sim)
+        if pbp_sim.create_frames is not st_sim.create_frames:
+            wrap_create_frames(pbp_sim)
         P.set(st_sim, "_get_wrt_spots", get_wrt_spots)
         P.set(st_jac.Jacobian, "_populate_map", populate_map)
         P.set(st_eval, "_create_update_map", create_update_map)
@@ -631,29 +740,60 @@ def run_sim(case, m=None) -> dict:
         P.set(st_sim._nq, "damped_newton", newton)
         P.set(fr_mod.SplitFrame, "write_frame_data_to_main_dataslate", wb_split)
         kw = {}
+        ss = {}
         if case["step_tol"] is not None:
-            kw["solver_settings"] = {"step_tolerance": case["step_tol"]}
+            ss["step_tolerance"] = case["step_tol"]
+        if case.get("max_iter") is not None:
+            ss["max_iterations"] = int(case["max_iter"])
+        if ss:
+            kw["solver_settings"] = ss
         if case["method"] == "stacked_time":
             kw["terminal"] = case["terminal"]
+        if wf != "critical" or case.get("when_fails_explicit"):
+            kw["when_fails"] = wf          # "critical" is the default of simulate(): left to the default
+        for fl, val in (case.get("flags") or {}).items():
+            kw[fl] = bool(val)
+        rec["when_fails"] = wf
+        rec["in_db"] = db
+        rec["span"] = span
+        rec["model"] = m
+
+        def reported(text):
+            """(variant, frame) of every frame listed in a failure report, in the order of the listing"""
+            got = []
+            for line in str(text).splitlines():
+                for h, vf in rec["headers"].items():
+                    if h + ":" in line:
+                        got.append(vf)
+            return got
         try:
-            with contextlib.redirect_stdout(io.StringIO()):
-                o = case.get("opts") or {}
-                out, info = m.simulate(db, span, method=case["method"], plan=plan, return_info=True,
-                                       remove_terminal=bool(o.get("remove_terminal", False)),
-                                       remove_initial=bool(o.get("remove_initial", True)),
-                                       prepend_input=bool(o.get("prepend_input", True)),
-                                       when_fails="silent", unpack_singleton=False,
-                                       initial_guess=case["initial_guess"], **kw)
+            with _w.catch_warnings(record=True) as caught:
+                _w.simplefilter("always")
+                with contextlib.redirect_stdout(io.StringIO()):
+                    o = case.get("opts") or {}
+                    out, info = m.simulate(db, span, method=case["method"], plan=plan, return_info=True,
+                                           remove_terminal=bool(o.get("remove_terminal", False)),
+                                           remove_initial=bool(o.get("remove_initial", True)),
+                                           prepend_input=bool(o.get("prepend_input", True)),
+                                           unpack_singleton=False,
+                                           initial_guess=case["initial_guess"], **kw)
+            warned = [str(x.message) for x in caught if type(x.message).__name__ == "IrisPieWarning"
+                      and "Simulation failed to complete" in str(x.message)]
+            rec["outcome"] = ("warned", reported(warned[0])) if warned else ("returned", [])
         except Exception as e:  # noqa
             import traceback
+            nm = type(e).__name__
+            if nm in ("IrisPieCritical", "IrisPieError") and "Simulation failed to complete" in str(e) and rec["headers"]:
+                # simulate() REPORTED a failure: nothing is returned
+                rec["outcome"] = ("critical" if nm == "IrisPieCritical" else "error", reported(e))
+                rec["raised"] = True
+                return rec
             return {"error": f"{type(e).__name__}: {e}"[:300], "tb": traceback.format_exc()[-1500:], "rec": rec}
     finally:
         P.restore()
+        DS.from_databox_for_slatable = ds_orig
     rec["out"] = out
     rec["info"] = info
-    rec["in_db"] = db
-    rec["span"] = span
-    rec["model"] = m
     rec["plan"] = plan
     return rec
 
@@ -748,7 +888,11 @@ def check_property(case, rec) -> tuple[list[Failure], dict]:
     """The property on one call of simulate: every parameter variant is checked on its own data."""
     fails: list[Failure] = []
     stats = {"frames_success": 0, "frames_failed": 0, "residuals": 0, "fo_compared": 0, "max_residual": 0.0,
-             "max_fo_diff": 0.0}
+             "max_fo_diff": 0.0, "reported_failures": 0, "unreported_checked": 0}
+    if rec.get("raised"):
+        # simulate() reported a failure (IrisPieCritical / IrisPieError): the property says nothing about this call
+        stats["reported_failures"] = 1
+        return fails, stats
     nv = case["spec"].get("nv", 1)
     infos = rec["info"] if isinstance(rec["info"], list) else [rec["info"]]
     if len(infos) != nv:
@@ -790,7 +934,7 @@ def _check_variant(case, rec, v, info) -> tuple[list[Failure], dict]:
     nv = spec.get("nv", 1)
     fails: list[Failure] = []
     stats = {"frames_success": 0, "frames_failed": 0, "residuals": 0, "fo_compared": 0, "max_residual": 0.0,
-             "max_fo_diff": 0.0}
+             "max_fo_diff": 0.0, "reported_failures": 0, "unreported_checked": 0}
     out, db = _DbView(rec["out"], v), _DbView(rec["in_db"], v)
     m = rec["model"].get_variant(v) if nv > 1 else rec["model"]
     s0, T = case["start"], case["nper"]
@@ -804,7 +948,20 @@ def _check_variant(case, rec, v, info) -> tuple[list[Failure], dict]:
             f"{'plan' if case['plan'] else 'noplan'}"
     inp = {"model": model_source(spec), "variant": v, "case": {k: x for k, x in case.items() if k != "spec"}}
     rho_v = spec.get("rho_v") or [[e["rho"] for e in spec["eqs"]]]
+    # the equations in force are the MODEL's (parameters_from_data=False, the default): whatever the databox carries
+    # under the name of a parameter; with parameters_from_data=True the databox's value where it has one
     params = {f"rho{i}": rho_v[v][i] for i in range(n)}
+    stale = case.get("stale")
+    flags = case.get("flags") or {}
+    if stale and flags.get("parameters_from_data"):
+        for i in range(n):
+            x = stale["rho"][v][i]
+            if x is not None and x == x:
+                params[f"rho{i}"] = float(x)
+    # which frames simulate() reported as failed: with when_fails in {critical, error, warning} the frames listed in
+    # the exception / warning (an exception never gets here); with "silent" the exit statuses of return_info
+    wf = rec.get("when_fails") or "silent"
+    listed = {f for (vv, f) in (rec.get("outcome") or ("returned", []))[1] if vv == v}
     endogenized = {(reg.endswith("unanticipated"), name, off) for reg, off, name in case["plan"]
                    if reg.startswith("endogenized")}
     exogenized = {(name, off) for reg, off, name in case["plan"] if reg.startswith("exogenized")}
@@ -815,8 +972,11 @@ def _check_variant(case, rec, v, info) -> tuple[list[Failure], dict]:
         if not st.is_success:
             stats["frames_failed"] += 1
             all_ok = False
-            continue
-        stats["frames_success"] += 1
+            if wf == "silent" or k in listed:
+                continue                      # reported as failed
+            stats["unreported_checked"] += 1  # simulate() reported success for this frame: the property applies
+        else:
+            stats["frames_success"] += 1
 
         def get_in_frame(name, t, fdb=fdb):
             if name in params:
@@ -871,7 +1031,15 @@ def _check_variant(case, rec, v, info) -> tuple[list[Failure], dict]:
                 if a > worst[0]:
                     worst = (a, (i, t))
         stats["max_residual"] = max(stats["max_residual"], worst[0] if worst[0] != float("inf") else 1e300)
-        if worst[0] > RES_TOL:
+        if worst[0] > RES_TOL and not st.is_success:
+            i, t = worst[1]
+            fails.append(Failure(f"unreported-failure:{shape}", f"simulate(when_fails={wf!r}) returned without reporting a "
+                                 f"failure of frame {k} (exit status: {st}), but transition equation {i} has residual "
+                                 f"{worst[0]:.3g} at period offset {t - s0}",
+                                 dict(inp, frame=k, equation=i, offset=t - s0, exit_status=str(st),
+                                      reported=sorted(listed)), worst[0], f"<= {RES_TOL}",
+                                 "Simultaneous.simulate(db, span, method=..., when_fails=..., solver_settings=...)"))
+        elif worst[0] > RES_TOL:
             i, t = worst[1]
             fails.append(Failure(f"residual:{shape}", f"frame {k} reports success but transition equation {i} has residual "
                                  f"{worst[0]:.3g} at period offset {t - s0}", dict(inp, frame=k, equation=i, offset=t - s0),
@@ -927,7 +1095,8 @@ def _check_variant(case, rec, v, info) -> tuple[list[Failure], dict]:
     # (the first-order simulator keeps exogenous variables at their steady values, so time-varying exogenous paths
     #  are not "the same inputs" for it; with a plan and several frames the endogenized anticipated shocks are
     #  re-solved in every frame, so the returned shocks are not one consistent set of inputs for a single first-order run)
-    fo_applicable = spec["linear"] and all_ok and not has_nan and "w" not in values_v and (
+    fo_applicable = spec["linear"] and all_ok and not has_nan and not flags.get("parameters_from_data") \
+        and "w" not in values_v and (
         terminal == "first_order" or hi <= 0) and (not case["plan"] or len(frames) == 1)
     if fo_applicable:
         fo = _first_order_run(case, rec)
@@ -1123,6 +1292,109 @@ def shard_text(items) -> str:
     return "\n".join(parts) + "\n"
 
 
+# =====================================================================================
+# 5b. Coq rendering of the failure report and of the parameter / shock / std rows of the dataslate
+#     (lib/SimReportCase.v: rep_case, slat_case)
+# =====================================================================================
+
+HEADER2 = """From Coq Require Import List Bool PrimFloat.
+From Verif Require Import lib.SimProg model.SimReport lib.SimReportCase.
+Import ListNotations.
+Set Printing Width 1000000.
+Set Printing Depth 1000000.
+"""
+
+_WF = {"critical": "WCritical", "error": "WError", "warning": "WWarning", "silent": "WSilent"}
+
+
+def _nat_pairs(l) -> str:
+    return coq_list([f"({int(a)}, {int(b)})" for a, b in l])
+
+
+def coq_report(case, rec) -> str:
+    """One call of simulate(): when_fails, frames per variant, recorded statuses, what the caller saw."""
+    nv = case["spec"].get("nv", 1)
+    nfs = [int(rec["nframes"].get(v, 1)) for v in range(nv)]       # (variants never reached are never consulted)
+    sts = []
+    for v in range(nv):
+        row = list(rec["statuses"].get(v, []))[:nfs[v]]
+        row += [True] * (nfs[v] - len(row))                        # frames never run are never consulted
+        sts.append(coq_list([coq_bool(b) for b in row]))
+    kind, listed = rec["outcome"]
+    obs = {"returned": "OReturned", "warned": f"(OWarned {_nat_pairs(listed)})",
+           "error": f"(OError {_nat_pairs(listed)})", "critical": f"(OCritical {_nat_pairs(listed)})"}[kind]
+    return f"(mkRep {_WF[rec['when_fails']]} {coq_list([str(x) for x in nfs])} {coq_list(sts)} {obs})"
+
+
+def _raw_row(db, name, v, serials) -> list[float]:
+    """What the input databox holds under `name` for variant v on the periods of the dataslate (NaN = nothing)."""
+    nanrow = [float("nan")] * len(serials)
+    if name not in db.keys():
+        return nanrow
+    x = db[name]
+    if hasattr(x, "data") and hasattr(x, "start"):
+        try:
+            st = int(x.start.serial)
+        except Exception:  # noqa -- empty series
+            return nanrow
+        d = x.data
+        col = min(v, d.shape[1] - 1)
+        return [float(d[t - st, col]) if 0 <= t - st < d.shape[0] else float("nan") for t in serials]
+    if isinstance(x, (list, tuple)):
+        if not x:
+            return nanrow
+        return [float(x[min(v, len(x) - 1)])] * len(serials)
+    return [float(x)] * len(serials)
+
+
+def slat_entries(case, rec, v):
+    """(name, group, model value, raw row, dataslate row) for every parameter / shock / std name of the dataslate."""
+    spec = case["spec"]
+    sl = rec["slate"]
+    m = rec["model"]
+    stds = m.get_stds(unpack_singleton=False)
+    rho_v = spec.get("rho_v") or [[e["rho"] for e in spec["eqs"]]]
+    out = []
+    for q, name in enumerate(sl["names"]):
+        if name.startswith("rho") and name[3:].isdigit():
+            g, val = "GParameters", float(rho_v[v][int(name[3:])])
+        elif name in stds.keys():
+            sv = stds[name]
+            g, val = "GStds", float(sv[min(v, len(sv) - 1)] if isinstance(sv, (list, tuple)) else sv)
+        elif _re.fullmatch(r"(ant_)?e\d+|eo\d+", name):
+            g, val = "GShocks", 0.0
+        else:
+            continue
+        out.append((name, g, val, _raw_row(rec["in_db"], name, v, sl["periods"]), [float(x) for x in sl["data"][v][q, :]]))
+    return out
+
+
+def sim_flags(case) -> tuple[bool, bool, bool]:
+    fl = case.get("flags") or {}
+    return (bool(fl.get("parameters_from_data", False)), bool(fl.get("shocks_from_data", True)),
+            bool(fl.get("stds_from_data", True)))
+
+
+def coq_slat(case, rec, v) -> str:
+    fl = sim_flags(case)
+    ents = [f"(mkEnt {g} {coq_float(val)} {coq_list([coq_float(x) for x in raw])} {coq_list([coq_float(x) for x in obs])})"
+            for _, g, val, raw, obs in slat_entries(case, rec, v)]
+    return f"(mkSlat ({coq_bool(fl[0])}, {coq_bool(fl[1])}, {coq_bool(fl[2])}) {coq_list(ents)})"
+
+
+def shard_text2(reps, slats) -> str:
+    parts = [HEADER2]
+    for k, r in enumerate(reps):
+        parts.append(f"Definition rep{k} : rep_case := {r}.")
+    for k, r in enumerate(slats):
+        parts.append(f"Definition slat{k} : slat_case := {r}.")
+    parts.append(f"Definition reps : list rep_case := {coq_list([f'rep{k}' for k in range(len(reps))])}.")
+    parts.append(f"Definition slats : list slat_case := {coq_list([f'slat{k}' for k in range(len(slats))])}.")
+    parts.append("Eval vm_compute in (failing_idx rep_ok reps 0).")
+    parts.append("Eval vm_compute in (failing_idx slat_ok slats 0).")
+    return "\n".join(parts) + "\n"
+
+
 CHECK_NAMES = {4: "dataslate periods (pre-sample / post-sample columns for the deepest lag / lead of any quantity)",
                1: "base_columns", 2: "frames (break points, periods, columns, slices)", 3: "final main array (write-back)",
                10: "columns_to_run", 11: "wrt_spots", 12: "exogenized_spots", 13: "update map", 14: "jacobian lhs tokens",
@@ -1202,6 +1474,10 @@ def correspondence(ctx) -> CorrResult:
     tol_fail = []
     texts, shard_cases, pending = [], [], []
     n_items = 0
+    reps, slats, rep_cases, slat_cases = [], [], [], []       # the kinds "report" and "slatable"
+    dist.update({"when_fails": {}, "outcome": {}, "max_iterations_set": 0, "stale_parameter_entries": 0,
+                 "flags": {}, "report_cases": 0, "report_with_failed_frame": 0, "slatable_cases": 0,
+                 "slatable_rows": 0, "slatable_rows_data_differs_from_model": 0})
 
     def flush():
         if pending:
@@ -1211,10 +1487,39 @@ def correspondence(ctx) -> CorrResult:
 
     for case, m in gen_batch(rng, n_models, per_model):
         rec = run_sim(case, m)
-        if "error" in rec or "skip" in rec or not rec.get("variants"):
+        if "error" in rec or "skip" in rec:
             dist["simulate_raised"] += 1
             continue
         spec = case["spec"]
+        # --- kind "report": when_fails x recorded per-frame statuses -> what the caller of simulate() saw
+        jc = _jsonable_case(case)
+        if rec.get("outcome") and rec.get("nframes"):
+            reps.append(coq_report(case, rec))
+            rep_cases.append(jc)
+            dist["report_cases"] += 1
+            dist["report_with_failed_frame"] += any(not b for r in rec["statuses"].values() for b in r)
+            for k_, v_ in (("when_fails", rec["when_fails"]), ("outcome", rec["outcome"][0])):
+                dist[k_][v_] = dist[k_].get(v_, 0) + 1
+            dist["max_iterations_set"] += case.get("max_iter") is not None
+        # --- kind "slatable": flags x databox entries named like parameters / shocks / stds -> rows of the dataslate
+        if isinstance(rec.get("slate"), dict) and "data" in rec["slate"]:
+            dist["stale_parameter_entries"] += bool(case.get("stale"))
+            fk = repr(sim_flags(case))
+            dist["flags"][fk] = dist["flags"].get(fk, 0) + 1
+            for v in range(len(rec["slate"]["data"])):
+                ents = slat_entries(case, rec, v)
+                dist["slatable_rows"] += len(ents)
+                dist["slatable_rows_data_differs_from_model"] += sum(
+                    1 for _, _, val, raw, _ in ents if any(x == x and x != val for x in raw))
+                slats.append(coq_slat(case, rec, v))
+                slat_cases.append(dict(jc, variant=v))
+                dist["slatable_cases"] += 1
+        if rec.get("raised") or not rec.get("variants"):
+            if rec.get("raised"):
+                dist["reported_failure_raised"] = dist.get("reported_failure_raised", 0) + 1
+            else:
+                dist["simulate_raised"] += 1
+            continue
         variants = sorted(rec["variants"])
         n_items += len(variants)
         nframes = max(len(rec["variants"][v]) for v in variants)
@@ -1265,10 +1570,39 @@ def correspondence(ctx) -> CorrResult:
                 "compared with the model evaluated in Coq; non-trivial = at least two frames or a plan; distinct = distinct case")
     t_sim = _t.time() - ctx.t0
     t_a = _t.time()
-    results = core.run_cases(ctx, texts, timeout=1500)
+    # shards of the kinds "report" / "slatable" (small): appended after the simulation shards
+    n_sim_shards = len(texts)
+    per2 = 60
+    extra = []
+    for a in range(0, max(len(reps), len(slats)), per2):
+        extra.append((a, shard_text2(reps[a:a + per2], slats[a:a + per2])))
+    results = core.run_cases(ctx, texts + [t for _, t in extra], timeout=1500)
     ctx.log(f"correspondence: {n_items} simulations recorded by {t_sim:.0f}s after start; "
-            f"{len(texts)} Coq shards ({sum(len(t) for t in texts) // 1000} kB) evaluated in {_t.time() - t_a:.0f}s")
-    res.shards = len(texts)
+            f"{len(texts)}+{len(extra)} Coq shards ({sum(len(t) for t in texts) // 1000} kB) evaluated in {_t.time() - t_a:.0f}s; "
+            f"{len(reps)} report cases, {len(slats)} slatable cases")
+    res.evaluations += len(reps) + len(slats)
+    res.shards = len(texts) + len(extra)
+    for (a, _), (ok, out) in zip(extra, results[n_sim_shards:]):
+        if not ok:
+            res.disagreements.append(Disagreement(f"report/slatable cases shard at {a} does not evaluate", None, out[-800:], None))
+            continue
+        bodies = core.parse_eval_lists(out)
+        if len(bodies) != 2:
+            res.disagreements.append(Disagreement(f"report/slatable cases shard at {a}: unparsable output", None, out[-600:], None))
+            continue
+        for i in core.parse_nat_list(bodies[0]):
+            c = rep_cases[a + i]
+            res.disagreements.append(Disagreement(f"report: when_fails={c.get('when_fails')} {c['method']}", c,
+                                                  "what simulate() reported (exception / warning / normal return and the "
+                                                  "frames listed) differs from the model on the recorded per-frame "
+                                                  "exit statuses", None))
+        for i in core.parse_nat_list(bodies[1]):
+            c = slat_cases[a + i]
+            res.disagreements.append(Disagreement(f"slatable: flags={c.get('flags')} stale={bool(c.get('stale'))}", c,
+                                                  f"variant {c.get('variant')}: a parameter / shock / std row of the dataslate "
+                                                  "differs from the model (overwrite wins over data, data wins over fallback)",
+                                                  None))
+    results = results[:n_sim_shards]
     for k, (ok, out) in enumerate(results):
         sh = shard_cases[k]
         if not ok:
